@@ -1393,7 +1393,7 @@ theorem readInst_print (useHex : Int → Bool) (i : Inst) (hi : instOK i) : read
 
 /-- the attachments are well-formed and the instruction text itself contains no `, !` outside a quoted name (decidable; evaluated on the instance) -/
 def mdOK (useHex : Int → Bool) (i : Inst) : Prop :=
-  (∀ a ∈ i.md, a.1 ≠ [] ∧ a.2 < 2 ^ 63) ∧ scanMd false (instString useHex i) = some false
+  (∀ a ∈ i.md, a.1 ≠ [] ∧ a.2 < 2 ^ 63) ∧ scanMd false (instString useHex i) = some false ∧ (i.md = [] ∨ (noMdRows.contains i.row = false ∧ extIsNone i.ext = true))
 
 theorem startsMd_append (b R : Bytes) (hb : b ≠ []) (h : startsMd b = false) (hR : R = [] ∨ R.head? = some 44) : startsMd (b ++ R) = false := by
   rcases hR with hR | hR
@@ -1468,12 +1468,16 @@ theorem mdString_len : ∀ (md : List (Bytes × Nat)), md.length ≤ (mdString m
 
 theorem readInstMd_print (useHex : Int → Bool) (i : Inst) (hi : instOK i) (hm : mdOK useHex i) :
     readInstMd (instString useHex i ++ mdString i.md) = some { i with ext := .none } := by
-  obtain ⟨hmd, hscan⟩ := hm
+  obtain ⟨hmd, hscan, hrow⟩ := hm
   have hsp := splitMd_scan (instString useHex i) false false (mdString i.md) hscan (mdString_head i.md)
   rw [splitMd_mdString i.md (fun a ha => (hmd a ha).1)] at hsp
   simp only [List.append_nil] at hsp
   have hr := readMds_print i.md ((mdString i.md).length + 1) hmd (by have := mdString_len i.md; omega)
-  simp only [readInstMd, hsp, readInst_print useHex i hi, hr]
+  have hc : (noMdRows.contains i.row && !i.md.isEmpty) = false := by
+    rcases hrow with h | h
+    · simp [h]
+    · rw [h.1]; rfl
+  simp only [readInstMd, hsp, readInst_print useHex i hi, hr, hc, Bool.false_eq_true, if_false]
 
 /-! ### blocks -/
 
@@ -1688,6 +1692,11 @@ theorem inst_lines (useHex : Int → Bool) (i : Inst) (hi : instOK i) (hmd : mdO
   exact readExt_print useHex i.row i.ext hx tl htl
 
 /-- the instruction lines of a block are read up to and including the terminator -/
+theorem mdOK_ext (useHex : Int → Bool) (i : Inst) (hm : mdOK useHex i) : (!i.md.isEmpty && !extIsNone i.ext) = false := by
+  rcases hm.2.2 with h | h
+  · simp [h]
+  · simp [h.2]
+
 theorem readBody_lines (useHex : Int → Bool) (t : Inst) (ht : instOK t) (htm : mdOK useHex t) (htt : isTerm t = true) (tl : List Bytes)
     (htl : ∀ l ∈ tl.head?, notCont l = true) :
     ∀ (is : List Inst), (∀ i ∈ is, instOK i ∧ isTerm i = false) → (∀ i ∈ is, mdOK useHex i) → ∀ f, is.length + 1 ≤ f →
@@ -1697,7 +1706,7 @@ theorem readBody_lines (useHex : Int → Bool) (t : Inst) (ht : instOK t) (htm :
     obtain ⟨h1, h2⟩ := inst_lines useHex t ht htm tl htl
     have et : ({ ({ t with ext := .none } : Inst) with ext := t.ext } : Inst) = t := by cases t; rfl
     simp only [List.flatMap_nil, List.nil_append, instLines, List.cons_append, readBody', isInstLine, List.head?_cons, beq_self_eq_true,
-      Bool.not_true, Bool.false_eq_true, if_false, List.tail_cons, h1, h2, et, htt, if_true]
+      Bool.not_true, Bool.false_eq_true, if_false, List.tail_cons, h1, h2, et, htt, if_true, mdOK_ext useHex t htm]
   | i :: is, hi, him, f, hf => by
     obtain ⟨f', rfl⟩ : ∃ f', f = f' + 1 := ⟨f - 1, by simp at hf; omega⟩
     have ih := readBody_lines useHex t ht htm htt tl htl is (fun x hx => hi x (by simp [hx])) (fun x hx => him x (by simp [hx])) f' (by simp at hf ⊢; omega)
@@ -1712,7 +1721,7 @@ theorem readBody_lines (useHex : Int → Bool) (t : Inst) (ht : instOK t) (htm :
     have et : ({ ({ i with ext := .none } : Inst) with ext := i.ext } : Inst) = i := by cases i; rfl
     simp only [List.flatMap_cons, instLines, List.cons_append, List.append_assoc, readBody', isInstLine, List.head?_cons, beq_self_eq_true,
       Bool.not_true, Bool.false_eq_true, if_false, List.tail_cons, h2] at ih h3 ⊢
-    simp only [h3, et, h1.2, ih, Bool.false_eq_true, if_false]
+    simp only [h3, et, h1.2, ih, Bool.false_eq_true, if_false, mdOK_ext useHex i (him i (by simp))]
 
 theorem instLines_len (useHex : Int → Bool) (t : Inst) : 1 ≤ (instLines useHex t).length := by simp [instLines]
 
